@@ -455,7 +455,7 @@ Definition state_set_op (s : st) (i : nat) (new : Z) : st * res :=
                         let (w, ms) := acc in
                         if is_container_state w ch
                         then let (w, m2) := state_update_msgs w ch old new in (w, ms ++ m2)
-                        else (w, ms)) (state_desc (S (length (w_items w))) w (child_items it false)) (w, msgs)), ROk)
+                        else (w, ms)) (state_desc (length (child_items it false) + S (length (w_items w))) w (child_items it false)) (w, msgs)), ROk)
       end
   end.
 
